@@ -183,6 +183,14 @@ def run_property(prop, tier, repo="/repo", quiet=False, write_evidence=True, sco
     extra = {}
     if tier == "thorough" and hasattr(mod, "thorough"):
         extra = mod.thorough(ctx) or {}
+    if tier == "thorough" and repo == "/repo" and prop in WITNESSES:
+        wres = run_witnesses(prop)
+        extra["witnesses"] = wres
+        for w in wres["results"]:
+            if w["status"] != "ok":
+                ctx.violate("W" + w["name"][1:2], "witness::" + w["name"], "witness", "compile-%s witness no longer holds: %s" % (w["kind"], w["line"]))
+            else:
+                ctx.ok("W" + w["name"][1:2], "witness::" + w["name"], "%s witness %s holds" % (w["kind"], w["line"]))
     if tier == "thorough" and repo == "/repo" and os.environ.get("VERIF_NO_VARIANTS") != "1":
         extra.update(run_variants(prop))
     known = [k for k in load_known() if k["property"] == prop]
@@ -221,6 +229,30 @@ def run_property(prop, tier, repo="/repo", quiet=False, write_evidence=True, sco
         for l in lines:
             print(l)
     return (1 if new else 0), ctx, new, hit
+
+
+WITNESSES = {"C07": "w3", "C10": "w4", "C13": "w5", "C17": "w1", "C18": "w2"}
+
+
+def run_witnesses(prop):
+    """Thorough tier: compile-fail / compile-pass twins (rustdoc `compile_fail,E0xxx` needs nightly).  Nothing is
+    executed: passing twins are `no_run`."""
+    import shutil
+    import subprocess
+    wdir = os.path.join(VERIF, "witness")
+    shutil.copy("/repo/Cargo.lock", os.path.join(wdir, "Cargo.lock"))
+    env = dict(os.environ, CARGO_TARGET_DIR=os.path.join(X.WORK, "witness-target"), CARGO_NET_OFFLINE="true")
+    name = WITNESSES[prop]
+    r = subprocess.run(["cargo", "+nightly", "test", "--doc", "--offline", name], cwd=wdir, env=env, stdout=subprocess.PIPE, stderr=subprocess.STDOUT, text=True)
+    results = []
+    for line in r.stdout.splitlines():
+        m = re.match(r"^test src/lib.rs - (\w+) \(line (\d+)\)( - compile fail| - compile)? \.\.\. (\w+)", line)
+        if m:
+            results.append({"name": m.group(1), "line": "witness/src/lib.rs:%s" % m.group(2), "kind": "fail" if "fail" in (m.group(3) or "") else "pass",
+                            "status": "ok" if m.group(4) == "ok" else "FAILED"})
+    if not results:
+        results.append({"name": name, "line": "witness/src/lib.rs", "kind": "build", "status": "FAILED: " + r.stdout[-400:]})
+    return {"cmd": "cargo +nightly test --doc --offline " + name, "results": results}
 
 
 def run_variants(prop):
